@@ -1,8 +1,10 @@
 //! Step-level property oracles: independent re-statements of C05, C12, C14+C15, C07, C03, C02,
 //! C16, C17 and C13, judged on (state before, request, outcome, emitted messages / attributes,
 //! state after).  Expected values are computed here from the stored JSON and the request with
-//! exact integer arithmetic (`crate::exact`); the contract's types are used for deserialisation
-//! only, none of its functions is called to obtain an expected value.
+//! exact integer arithmetic (`crate::exact`).  Stored records are classified and read with the
+//! hand-written reader of `crate::format` (golden shapes, independent of the contract's serde
+//! derives); of the contract's types only the request messages are used, and none of its functions
+//! is called to obtain an expected value.
 //!
 //!  authorization          C05      a successful execute step was sent by someone entitled to it
 //!  config_change          C12      what modify_contract may change; nothing else changes the configuration
@@ -13,30 +15,29 @@
 //!  queries                C16      read-only, faithful
 //!  attributes             C17      response attributes report what was settled
 //!  instantiate_coherence  C13      instantiate accepted <=> coherent configuration, stored as requested
+//!  storage_format         C14,C16,C13  every record the contract writes is in the golden shape of `format.rs`,
+//!                                  every golden record in storage is read back by the contract as what it says
 
 use crate::exact::{
     canonical_uuid, fee_of, parse_dec, parse_semver, pow10, prorata, valid_addr, Dec,
     LIMIT96,
 };
 use crate::oracles::{OracleResult, StepCtx};
-use crate::run::{CallResult, Msg, Request, Snap, World, CONTRACT_INFO_KEY, VERSION_INFO_KEY, BID_PREFIX};
-use ats_smart_contract::ask_order::{AskOrderClass, AskOrderStatus, AskOrderV1};
-#[allow(deprecated)]
-use ats_smart_contract::bid_order::BidOrderV2;
-use ats_smart_contract::bid_order::BidOrderV3;
-use ats_smart_contract::common::FeeInfo;
-use ats_smart_contract::contract_info::ContractInfoV3;
+use crate::run::{CallResult, Msg, Request, Snap, World, ASK_PREFIX, BID_PREFIX, CONTRACT_INFO_KEY, VERSION_INFO_KEY};
+use crate::format::{
+    self, AskClass, AskRec, BidRec, BidShape, CoinRec, ConfigRec, FeeRec, StoredBid,
+};
 use ats_smart_contract::msg::{ExecuteMsg, InstantiateMsg, MigrateMsg, QueryMsg};
 use ats_smart_contract::version_info::{CRATE_NAME, PACKAGE_VERSION};
 use cosmwasm_std::testing::MockStorage;
-use cosmwasm_std::{from_slice, Addr, Coin, Order, Storage, Uint128, Uint256};
+use cosmwasm_std::{Coin, Order, Storage, Uint128, Uint256};
 use serde_json::{json, Value};
 use std::cmp::Ordering;
 use std::collections::{BTreeMap, BTreeSet};
 
 type StepOracle = fn(&World, &StepCtx) -> Option<OracleResult>;
 
-pub const STEP_ORACLES: [(&str, StepOracle); 9] = [
+pub const STEP_ORACLES: [(&str, StepOracle); 10] = [
     ("authorization", authorization),
     ("config_change", config_change),
     ("migration", migration),
@@ -46,14 +47,15 @@ pub const STEP_ORACLES: [(&str, StepOracle); 9] = [
     ("queries", queries),
     ("attributes", attributes),
     ("instantiate_coherence", instantiate_coherence),
+    ("storage_format", storage_format),
 ];
 
 fn verdict(failures: Vec<String>, ok: impl Into<String>) -> Option<OracleResult> {
     Some(OracleResult::from_failures(failures, ok.into()))
 }
 
-fn addr_strs(v: &[Addr]) -> Vec<String> {
-    v.iter().map(|a| a.to_string()).collect()
+fn addr_strs(v: &[String]) -> Vec<String> {
+    v.to_vec()
 }
 
 fn exec_msg<'a>(ctx: &'a StepCtx) -> Option<&'a ExecuteMsg> {
@@ -67,25 +69,19 @@ fn json_of(bytes: &[u8]) -> Option<Value> {
     serde_json::from_slice(bytes).ok()
 }
 
-fn is_pending(a: &AskOrderV1) -> bool {
-    matches!(
-        a.class,
-        AskOrderClass::Convertible {
-            status: AskOrderStatus::PendingIssuerApproval
-        }
-    )
+fn is_pending(a: &AskRec) -> bool {
+    a.is_pending()
 }
 
-fn ready(a: &AskOrderV1) -> Option<(&Addr, &Coin)> {
-    match &a.class {
-        AskOrderClass::Convertible {
-            status:
-                AskOrderStatus::Ready {
-                    approver,
-                    converted_base,
-                },
-        } => Some((approver, converted_base)),
-        _ => None,
+fn ready(a: &AskRec) -> Option<(&str, &CoinRec)> {
+    a.ready()
+}
+
+/// the coin of a request message as a record of `format.rs`
+fn coin_rec(c: &Coin) -> CoinRec {
+    CoinRec {
+        denom: c.denom.clone(),
+        amount: c.amount.u128(),
     }
 }
 
@@ -135,7 +131,7 @@ fn authorization(_world: &World, ctx: &StepCtx) -> Option<OracleResult> {
     let role = match msg {
         ExecuteMsg::CancelAsk { id } => {
             match ctx.pre.ask(id) {
-                Some(a) if a.owner.as_str() == sender => {}
+                Some(a) if a.owner == sender => {}
                 Some(a) => failures.push(format!(
                     "cancel_ask {id} accepted from {sender}, but the ask's owner is {}",
                     a.owner
@@ -148,7 +144,7 @@ fn authorization(_world: &World, ctx: &StepCtx) -> Option<OracleResult> {
         }
         ExecuteMsg::CancelBid { id } => {
             match ctx.pre.bid(id) {
-                Some(b) if b.owner.as_str() == sender => {}
+                Some(b) if b.owner == sender => {}
                 Some(b) => failures.push(format!(
                     "cancel_bid {id} accepted from {sender}, but the bid's owner is {}",
                     b.owner
@@ -204,7 +200,7 @@ fn authorization(_world: &World, ctx: &StepCtx) -> Option<OracleResult> {
 /// The fee a request pair (account, rate) must lead to, given the fee before.
 fn fee_expected(
     side: &str,
-    old: &Option<FeeInfo>,
+    old: &Option<FeeRec>,
     account: &Option<String>,
     rate: &Option<String>,
     failures: &mut Vec<String>,
@@ -225,23 +221,23 @@ fn fee_expected(
                 Some((a.clone(), r.clone()))
             }
         }
-        (None, None) => old.as_ref().map(|f| (f.account.to_string(), f.rate.clone())),
+        (None, None) => old.as_ref().map(|f| (f.account.clone(), f.rate.clone())),
         _ => {
             failures.push(format!(
                 "{side} fee pair half-supplied (account {account:?}, rate {rate:?}) but the request was accepted"
             ));
-            old.as_ref().map(|f| (f.account.to_string(), f.rate.clone()))
+            old.as_ref().map(|f| (f.account.clone(), f.rate.clone()))
         }
     }
 }
 
-fn fee_pair(f: &Option<FeeInfo>) -> Option<(String, String)> {
-    f.as_ref().map(|f| (f.account.to_string(), f.rate.clone()))
+fn fee_pair(f: &Option<FeeRec>) -> Option<(String, String)> {
+    f.as_ref().map(|f| (f.account.clone(), f.rate.clone()))
 }
 
 fn check_fee_installed(
     side: &str,
-    new: &Option<FeeInfo>,
+    new: &Option<FeeRec>,
     expected: Option<(String, String)>,
     failures: &mut Vec<String>,
 ) {
@@ -288,7 +284,7 @@ fn check_list_installed(
     }
 }
 
-fn market_params_same(old: &ContractInfoV3, new: &ContractInfoV3, failures: &mut Vec<String>) {
+fn market_params_same(old: &ConfigRec, new: &ConfigRec, failures: &mut Vec<String>) {
     if old.name != new.name
         || old.bind_name != new.bind_name
         || old.base_denom != new.base_denom
@@ -305,7 +301,7 @@ fn market_params_same(old: &ContractInfoV3, new: &ContractInfoV3, failures: &mut
 }
 
 /// numeric value of a configured rate; Err if it does not parse
-fn rate_value(f: &Option<FeeInfo>) -> Result<Option<Dec>, String> {
+fn rate_value(f: &Option<FeeRec>) -> Result<Option<Dec>, String> {
     match f {
         None => Ok(None),
         Some(f) => parse_dec(&f.rate)
@@ -314,7 +310,7 @@ fn rate_value(f: &Option<FeeInfo>) -> Result<Option<Dec>, String> {
     }
 }
 
-fn same_rate(a: &Option<FeeInfo>, b: &Option<FeeInfo>) -> Result<bool, String> {
+fn same_rate(a: &Option<FeeRec>, b: &Option<FeeRec>) -> Result<bool, String> {
     Ok(match (rate_value(a)?, rate_value(b)?) {
         (None, None) => true,
         (Some(x), Some(y)) => x.eq_value(&y),
@@ -490,42 +486,7 @@ fn config_change(_world: &World, ctx: &StepCtx) -> Option<OracleResult> {
 // migration (C14 + C15)
 // ---------------------------------------------------------------------------
 
-fn amount_of(coin: &Value) -> Option<u128> {
-    coin.get("amount")?.as_str()?.parse::<u128>().ok()
-}
-
-fn opt_amount_of(coin: Option<&Value>) -> Option<u128> {
-    match coin {
-        None | Some(Value::Null) => Some(0),
-        Some(c) => amount_of(c),
-    }
-}
-
-/// (sum base, sum quote, sum fee) over the event log of a stored legacy bid, read from its JSON
-fn legacy_sums(v2: &Value) -> Option<(u128, u128, u128)> {
-    let (mut sb, mut sq, mut sf) = (0u128, 0u128, 0u128);
-    for e in v2.get("events")?.as_array()? {
-        let action = e.get("action")?.as_object()?;
-        if action.len() != 1 {
-            return None;
-        }
-        let (kind, body) = action.iter().next()?;
-        match kind.as_str() {
-            "Fill" | "Reject" => {
-                sb = sb.checked_add(amount_of(body.get("base")?)?)?;
-                sq = sq.checked_add(amount_of(body.get("quote")?)?)?;
-                sf = sf.checked_add(opt_amount_of(body.get("fee"))?)?;
-            }
-            "Refund" => {
-                sq = sq.checked_add(amount_of(body.get("quote")?)?)?;
-                sf = sf.checked_add(opt_amount_of(body.get("fee"))?)?;
-            }
-            _ => return None,
-        }
-    }
-    Some((sb, sq, sf))
-}
-
+/// Classification of a stored bid by the hand-written reader (shape first, then field for field).
 #[derive(PartialEq)]
 enum BidFormat {
     Current,
@@ -533,15 +494,17 @@ enum BidFormat {
     Unknown,
 }
 
-#[allow(deprecated)]
 fn bid_format(bytes: &[u8]) -> BidFormat {
-    if from_slice::<BidOrderV3>(bytes).is_ok() {
-        BidFormat::Current
-    } else if from_slice::<BidOrderV2>(bytes).is_ok() {
-        BidFormat::Legacy
-    } else {
-        BidFormat::Unknown
+    match format::classify_bid(bytes) {
+        StoredBid::Current(_) => BidFormat::Current,
+        StoredBid::Legacy(_) => BidFormat::Legacy,
+        StoredBid::Malformed { .. } => BidFormat::Unknown,
     }
+}
+
+/// (source version is a release, >= 0.16.2, < 0.19.1): the versions that stored bids with an event log
+fn in_conversion_window(stored_version: Option<&str>) -> bool {
+    matches!(stored_version.and_then(parse_semver), Some(v) if !v.pre && v.at_least(0, 16, 2) && !v.at_least(0, 19, 1))
 }
 
 fn storage_of(snap: &Snap) -> MockStorage {
@@ -579,7 +542,7 @@ fn migration(world: &World, ctx: &StepCtx) -> Option<OracleResult> {
             }
         }
     }
-    let in_window = matches!(ver, Some(v) if !v.pre && v.at_least(0, 16, 2) && !v.at_least(0, 19, 1));
+    let in_window = in_conversion_window(stored.as_deref());
     // C14: asks exactly as they were
     if ctx.pre.asks() != ctx.post.asks() {
         failures.push("the ask side of the book changed".to_string());
@@ -609,7 +572,10 @@ fn migration(world: &World, ctx: &StepCtx) -> Option<OracleResult> {
                     Some(v) => v,
                     None => continue,
                 };
-                let sums = legacy_sums(&v2);
+                let sums = match format::classify_bid(before) {
+                    StoredBid::Legacy(l) => l.sums(),
+                    _ => None,
+                };
                 let (sb, sq, sf) = match sums {
                     Some(s) => s,
                     None => {
@@ -829,12 +795,12 @@ fn admission(world: &World, ctx: &StepCtx) -> Option<OracleResult> {
             }
         }
     };
-    let precision = ci.price_precision.u128().min(38) as u32;
-    let increment = ci.size_increment.u128();
+    let precision = ci.price_precision.min(38) as u32;
+    let increment = ci.size_increment;
     // conditions of the statement that are not met (empty = fully conforming request)
     let mut unmet: Vec<String> = vec![];
     // premises of the "must be accepted" direction only (ranges of the decimal library)
-    let mut in_range = increment >= 1 && ci.price_precision.u128() <= 18;
+    let mut in_range = increment >= 1 && ci.price_precision <= 18;
     let mut failures = vec![];
     match msg {
         ExecuteMsg::CreateAsk {
@@ -877,20 +843,18 @@ fn admission(world: &World, ctx: &StepCtx) -> Option<OracleResult> {
                 escrow_failures(world, ctx, sender, size, base, &mut failures);
                 // recorded as requested, sender as owner, nothing else changed
                 let expected_class = if base == &ci.base_denom {
-                    AskOrderClass::Basic
+                    AskClass::Basic
                 } else {
-                    AskOrderClass::Convertible {
-                        status: AskOrderStatus::PendingIssuerApproval,
-                    }
+                    AskClass::Pending
                 };
-                let expected = AskOrderV1 {
+                let expected = AskRec {
                     id: id.clone(),
-                    owner: Addr::unchecked(sender),
+                    owner: sender.to_string(),
                     class: expected_class,
                     base: base.clone(),
                     quote: quote.clone(),
                     price: price.clone(),
-                    size: Uint128::new(size),
+                    size,
                 };
                 match ctx.post.ask(id) {
                     Some(a) if a == expected => {}
@@ -899,7 +863,7 @@ fn admission(world: &World, ctx: &StepCtx) -> Option<OracleResult> {
                         other, expected
                     )),
                 }
-                let mut k = crate::run::ASK_PREFIX.to_vec();
+                let mut k = ASK_PREFIX.to_vec();
                 k.extend_from_slice(id.as_bytes());
                 if !ctx.pre.same_except(ctx.post, &[&k]) {
                     failures.push("storage other than the new ask changed".to_string());
@@ -990,20 +954,20 @@ fn admission(world: &World, ctx: &StepCtx) -> Option<OracleResult> {
                 if let Some(e) = escrow {
                     escrow_failures(world, ctx, sender, e, quote, &mut failures);
                 }
-                let expected = BidOrderV3 {
-                    base: Coin {
-                        amount: Uint128::new(size),
+                let expected = BidRec {
+                    base: CoinRec {
+                        amount: size,
                         denom: base.clone(),
                     },
-                    accumulated_base: Uint128::zero(),
-                    accumulated_quote: Uint128::zero(),
-                    accumulated_fee: Uint128::zero(),
-                    fee: fee.clone(),
+                    accumulated_base: 0,
+                    accumulated_quote: 0,
+                    accumulated_fee: 0,
+                    fee: fee.as_ref().map(coin_rec),
                     id: id.clone(),
-                    owner: Addr::unchecked(sender),
+                    owner: sender.to_string(),
                     price: price.clone(),
-                    quote: Coin {
-                        amount: Uint128::new(quote_size),
+                    quote: CoinRec {
+                        amount: quote_size,
                         denom: quote.clone(),
                     },
                 };
@@ -1043,8 +1007,8 @@ fn admission(world: &World, ctx: &StepCtx) -> Option<OracleResult> {
 // ---------------------------------------------------------------------------
 
 struct MatchFacts {
-    ask: AskOrderV1,
-    bid: BidOrderV3,
+    ask: AskRec,
+    bid: BidRec,
     size: u128,
     /// size * execution price, size * bid price (None = not a whole number)
     g: Option<u128>,
@@ -1062,17 +1026,14 @@ struct MatchJudgement {
     facts: Option<MatchFacts>,
 }
 
-fn rem_base(b: &BidOrderV3) -> Option<u128> {
-    b.base.amount.u128().checked_sub(b.accumulated_base.u128())
+fn rem_base(b: &BidRec) -> Option<u128> {
+    b.rem_base()
 }
-fn rem_quote(b: &BidOrderV3) -> Option<u128> {
-    b.quote.amount.u128().checked_sub(b.accumulated_quote.u128())
+fn rem_quote(b: &BidRec) -> Option<u128> {
+    b.rem_quote()
 }
-fn rem_fee(b: &BidOrderV3) -> Option<u128> {
-    match &b.fee {
-        None => Some(0),
-        Some(f) => f.amount.u128().checked_sub(b.accumulated_fee.u128()),
-    }
+fn rem_fee(b: &BidRec) -> Option<u128> {
+    b.rem_fee()
 }
 
 fn judge_match(ctx: &StepCtx, msg: &ExecuteMsg) -> Option<MatchJudgement> {
@@ -1157,7 +1118,7 @@ fn judge_match(ctx: &StepCtx, msg: &ExecuteMsg) -> Option<MatchJudgement> {
         ));
     }
     let rb = rem_base(&bid);
-    if size > ask.size.u128() {
+    if size > ask.size {
         unmet.push(format!("size {size} exceeds the ask's remaining size {}", ask.size));
     }
     match rb {
@@ -1196,11 +1157,11 @@ fn judge_match(ctx: &StepCtx, msg: &ExecuteMsg) -> Option<MatchJudgement> {
         _ => not_claimed.push("ask fee not payable from the proceeds".to_string()),
     }
     // bid well-formedness (holds in every reachable book; books seeded by direct writes may differ)
-    let q = bid.quote.amount.u128();
-    let f = bid.fee.as_ref().map(|f| f.amount.u128());
+    let q = bid.quote.amount;
+    let f = bid.fee.as_ref().map(|f| f.amount);
     match (rb, rem_quote(&bid), rem_fee(&bid)) {
         (Some(rb), Some(rq), Some(rf)) => {
-            if q < 1 || q >= LIMIT96 || bid.base.amount.u128() >= LIMIT96 || f.unwrap_or(0) >= LIMIT96 {
+            if q < 1 || q >= LIMIT96 || bid.base.amount >= LIMIT96 || f.unwrap_or(0) >= LIMIT96 {
                 not_claimed.push("bid amounts out of range".to_string());
             }
             if rb < 1 || bp.times(rb).whole_u128() != Some(rq) || bp.neg {
@@ -1320,13 +1281,13 @@ fn settlements(world: &World, ctx: &StepCtx, m: &MatchFacts) -> Result<Vec<Settl
         g
     };
     let refund_q = og.checked_sub(g).ok_or("bid price below execution price")?;
-    let q = m.bid.quote.amount.u128();
+    let q = m.bid.quote.amount;
     // (bid fee of the fill, fee released by the improved fill)
     let mut fee_cases: Vec<(u128, u128)> = vec![];
     match &m.bid.fee {
         None => fee_cases.push((0, 0)),
         Some(f) => {
-            let f = f.amount.u128();
+            let f = f.amount;
             let rq = rem_quote(&m.bid).ok_or("the bid's quote is over-spent")?;
             let rf = rem_fee(&m.bid).ok_or("the bid's fee is over-spent")?;
             let left_g = rq.checked_sub(g).ok_or("fill exceeds the bid's unspent quote")?;
@@ -1345,7 +1306,7 @@ fn settlements(world: &World, ctx: &StepCtx, m: &MatchFacts) -> Result<Vec<Settl
         let refund_f = if m.improved && origfee > bidfee { origfee - bidfee } else { 0 };
         let mut d = Dues::new();
         if askfee > 0 {
-            let acct = ci.ask_fee_info.as_ref().map(|f| f.account.to_string()).ok_or("ask fee without account")?;
+            let acct = ci.ask_fee_info.as_ref().map(|f| f.account.clone()).ok_or("ask fee without account")?;
             due(&mut d, &acct, &qd, askfee);
         }
         if bidfee > 0 {
@@ -1360,8 +1321,8 @@ fn settlements(world: &World, ctx: &StepCtx, m: &MatchFacts) -> Result<Vec<Settl
         match ready(&m.ask) {
             Some((approver, cb)) => {
                 due(&mut d, buyer, &cb.denom, m.size);
-                due(&mut d, approver.as_str(), &m.ask.base, m.size);
-                due(&mut d, approver.as_str(), &qd, net);
+                due(&mut d, approver, &m.ask.base, m.size);
+                due(&mut d, approver, &qd, net);
             }
             None => {
                 due(&mut d, m.ask.owner.as_str(), &qd, net);
@@ -1382,27 +1343,24 @@ fn settlements(world: &World, ctx: &StepCtx, m: &MatchFacts) -> Result<Vec<Settl
 }
 
 /// the ask after `size` was taken from it (None = it leaves the book)
-fn ask_after(a: &AskOrderV1, size: u128) -> Option<AskOrderV1> {
-    let left = a.size.u128().checked_sub(size)?;
+fn ask_after(a: &AskRec, size: u128) -> Option<AskRec> {
+    let left = a.size.checked_sub(size)?;
     if left == 0 {
         return None;
     }
     let mut n = a.clone();
-    n.size = Uint128::new(left);
-    if let AskOrderClass::Convertible {
-        status: AskOrderStatus::Ready { converted_base, .. },
-    } = &mut n.class
-    {
-        converted_base.amount = Uint128::new(left);
+    n.size = left;
+    if let AskClass::Ready { converted_base, .. } = &mut n.class {
+        converted_base.amount = left;
     }
     Some(n)
 }
 
-fn bid_after(b: &BidOrderV3, db: u128, dq: u128, df: u128) -> Option<BidOrderV3> {
+fn bid_after(b: &BidRec, db: u128, dq: u128, df: u128) -> Option<BidRec> {
     let mut n = b.clone();
-    n.accumulated_base = Uint128::new(b.accumulated_base.u128().checked_add(db)?);
-    n.accumulated_quote = Uint128::new(b.accumulated_quote.u128().checked_add(dq)?);
-    n.accumulated_fee = Uint128::new(b.accumulated_fee.u128().checked_add(df)?);
+    n.accumulated_base = b.accumulated_base.checked_add(db)?;
+    n.accumulated_quote = b.accumulated_quote.checked_add(dq)?;
+    n.accumulated_fee = b.accumulated_fee.checked_add(df)?;
     if n.accumulated_base == n.base.amount {
         None
     } else {
@@ -1466,7 +1424,7 @@ fn settlement(world: &World, ctx: &StepCtx) -> Option<OracleResult> {
         failures.push(why.join(" | "));
     }
     // nothing but the two orders changed
-    let mut ka = crate::run::ASK_PREFIX.to_vec();
+    let mut ka = ASK_PREFIX.to_vec();
     ka.extend_from_slice(ask_id.as_bytes());
     let mut kb = BID_PREFIX.to_vec();
     kb.extend_from_slice(bid_id.as_bytes());
@@ -1587,9 +1545,9 @@ fn queries(world: &World, ctx: &StepCtx) -> Option<OracleResult> {
                     }
                     // an order a query shows is open: something is left of it
                     let left = if side == "ask" {
-                        serde_json::from_value::<AskOrderV1>(v.clone()).ok().map(|a| a.size.u128())
+                        format::read_ask(&v).ok().map(|a| a.size)
                     } else {
-                        serde_json::from_value::<BidOrderV3>(v.clone()).ok().and_then(|b| rem_base(&b))
+                        format::read_bid(&v).ok().and_then(|b| rem_base(&b))
                     };
                     if left == Some(0) {
                         failures.push(format!("get_{side} {id}: answers with a completely filled / returned order"));
@@ -1597,9 +1555,9 @@ fn queries(world: &World, ctx: &StepCtx) -> Option<OracleResult> {
                 }
                 (Some(raw), Err(e)) => {
                     let current = if side == "ask" {
-                        from_slice::<AskOrderV1>(raw).is_ok()
+                        format::ask_of(raw).is_ok()
                     } else {
-                        from_slice::<BidOrderV3>(raw).is_ok()
+                        format::current_bid_of(raw).is_some()
                     };
                     // legacy-format bids are not served before migration; ids that are no UUID
                     // in any written form are refused at the message level
@@ -1666,8 +1624,8 @@ fn shadow_asks(s: &Snap) -> Shadow {
     s.asks()
         .into_iter()
         .filter_map(|(k, v)| {
-            let a: AskOrderV1 = from_slice(v).ok()?;
-            Some((id_str(k), (a.size.u128(), ready(&a).is_some())))
+            let a = format::ask_of(v).ok()?;
+            Some((id_str(k), (a.size, ready(&a).is_some())))
         })
         .collect()
 }
@@ -1676,7 +1634,7 @@ fn shadow_bids(s: &Snap) -> Shadow {
     s.bids()
         .into_iter()
         .filter_map(|(k, v)| {
-            let b: BidOrderV3 = from_slice(v).ok()?;
+            let b = format::current_bid_of(v)?;
             Some((id_str(k), (rem_base(&b)?, false)))
         })
         .collect()
@@ -1753,14 +1711,14 @@ fn attributes(world: &World, ctx: &StepCtx) -> Option<OracleResult> {
             let action = if matches!(msg, ExecuteMsg::ExpireAsk { .. }) { "expire_ask" } else { "reject_ask" };
             want_attr(ctx, "action", action, &mut failures);
             want_attr(ctx, "id", id, &mut failures);
-            let before = ctx.pre.ask(id).map(|a| a.size.u128()).unwrap_or(0);
-            let after = ctx.post.ask(id).map(|a| a.size.u128()).unwrap_or(0);
+            let before = ctx.pre.ask(id).map(|a| a.size).unwrap_or(0);
+            let after = ctx.post.ask(id).map(|a| a.size).unwrap_or(0);
             want_attr(ctx, "reverse_size", &before.saturating_sub(after).to_string(), &mut failures);
             // ... which is what actually went back to the owner
             if let (Some(a), Ok(paid)) = (ctx.pre.ask(id), paid_out(world, ctx.messages)) {
-                let got = paid.get(&(a.owner.to_string(), a.base.clone())).copied().unwrap_or(0);
+                let got = paid.get(&(a.owner.clone(), a.base.clone())).copied().unwrap_or(0);
                 let extra = match ready(&a) {
-                    Some((ap, cb)) if ap == &a.owner && cb.denom == a.base => before.saturating_sub(after),
+                    Some((ap, cb)) if ap == a.owner && cb.denom == a.base => before.saturating_sub(after),
                     _ => 0,
                 };
                 if rep_size("reverse_size").map(|r| r.saturating_add(extra)) != Some(got) {
@@ -1940,7 +1898,14 @@ fn instantiate_coherence(_world: &World, ctx: &StepCtx) -> Option<OracleResult> 
     }
     let mut failures: Vec<String> = unmet.iter().map(|u| format!("instantiated although {u}")).collect();
     match ctx.post.contract_info() {
-        None => failures.push("no readable configuration stored".to_string()),
+        None => failures.push(match ctx.post.get(CONTRACT_INFO_KEY) {
+            None => "no configuration stored".to_string(),
+            Some(raw) => format!(
+                "the stored configuration is not a record in the released shape ({}): {}",
+                format::config_of(raw).err().unwrap_or_default(),
+                String::from_utf8_lossy(raw)
+            ),
+        }),
         Some(ci) => {
             if ci.name != m.name
                 || ci.base_denom != m.base_denom
@@ -1950,8 +1915,8 @@ fn instantiate_coherence(_world: &World, ctx: &StepCtx) -> Option<OracleResult> 
                 || addr_strs(&ci.executors) != m.executors
                 || ci.ask_required_attributes != m.ask_required_attributes
                 || ci.bid_required_attributes != m.bid_required_attributes
-                || ci.price_precision != m.price_precision
-                || ci.size_increment != m.size_increment
+                || ci.price_precision != m.price_precision.u128()
+                || ci.size_increment != m.size_increment.u128()
             {
                 failures.push(format!("stored configuration {:?} differs from the request {:?}", ci, m));
             }
@@ -1962,7 +1927,7 @@ fn instantiate_coherence(_world: &World, ctx: &StepCtx) -> Option<OracleResult> 
                 failures.push(format!("stored bid fee {:?}, requested {:?}", fee_pair(&ci.bid_fee_info), bid_fee));
             }
             // consequence: an admissible price times an admissible size is an integer
-            let (pp, ii) = (ci.price_precision.u128(), ci.size_increment.u128());
+            let (pp, ii) = (ci.price_precision, ci.size_increment);
             if pp <= 18 && ii >= 1 {
                 let unit = Dec { neg: false, mant: 1, scale: pp as u32 };
                 if !unit.times(ii).whole {
@@ -1985,6 +1950,213 @@ fn instantiate_coherence(_world: &World, ctx: &StepCtx) -> Option<OracleResult> 
         failures.push("the book is not empty after instantiation".to_string());
     }
     verdict(failures, "coherent configuration stored as requested")
+}
+
+// ---------------------------------------------------------------------------
+// storage_format (C14 "migration preserves the book", C16 "queries report the book faithfully", C13)
+// ---------------------------------------------------------------------------
+
+fn shape_name(s: BidShape) -> &'static str {
+    match s {
+        BidShape::Current => "current-format shape",
+        BidShape::Legacy => "legacy-format shape",
+        BidShape::Unknown => "no known shape",
+    }
+}
+
+/// After every successful step:
+/// (a) every storage entry the contract wrote in the step is a record in its golden shape;
+/// (b) every golden record in storage is read back by the contract as what it says;
+/// (c) a migration from a version inside the conversion window leaves no legacy-format bid.
+fn storage_format(world: &World, ctx: &StepCtx) -> Option<OracleResult> {
+    if !ctx.ok || ctx.kind == "query" {
+        return None;
+    }
+    let mut failures = vec![];
+    // ---- (a) what the contract wrote
+    let by_contract = matches!(ctx.kind, "instantiate" | "execute" | "migrate");
+    let mut n_written = 0;
+    if by_contract {
+        for (k, v) in &ctx.post.raw {
+            if ctx.pre.get(k) == Some(v.as_slice()) {
+                continue;
+            }
+            n_written += 1;
+            let shown = || String::from_utf8_lossy(v).to_string();
+            if let Some(key) = k.strip_prefix(ASK_PREFIX) {
+                let key = id_str(key);
+                match format::ask_of(v) {
+                    Ok(a) => {
+                        let drift_before = ctx.pre.ask(&key).map(|p| p.id == a.id).unwrap_or(false);
+                        if a.id != key && !drift_before {
+                            failures.push(format!("ask written under key {key} names itself {}", a.id));
+                        }
+                    }
+                    Err(why) => failures.push(format!(
+                        "ask {key} was written in a shape other than the released one ({why}): {}",
+                        shown()
+                    )),
+                }
+            } else if let Some(key) = k.strip_prefix(BID_PREFIX) {
+                let key = id_str(key);
+                match format::classify_bid(v) {
+                    StoredBid::Current(b) => {
+                        let drift_before = ctx.pre.bid(&key).map(|p| p.id == b.id).unwrap_or(false);
+                        if b.id != key && !drift_before {
+                            failures.push(format!("bid written under key {key} names itself {}", b.id));
+                        }
+                    }
+                    StoredBid::Legacy(_) => failures.push(format!(
+                        "bid {key} was written in the legacy (event log) format: {}",
+                        shown()
+                    )),
+                    StoredBid::Malformed { shape, why } => failures.push(format!(
+                        "bid {key} was written in a shape other than the released one ({}; {why}): {}",
+                        shape_name(shape),
+                        shown()
+                    )),
+                }
+            } else if k.as_slice() == CONTRACT_INFO_KEY {
+                if let Err(why) = format::config_of(v) {
+                    failures.push(format!(
+                        "the configuration was written in a shape other than the released one ({why}): {}",
+                        shown()
+                    ));
+                }
+            } else if k.as_slice() == VERSION_INFO_KEY {
+                if let Err(why) = format::version_of(v) {
+                    failures.push(format!(
+                        "the version record was written in a shape other than the released one ({why}): {}",
+                        shown()
+                    ));
+                }
+            } else {
+                failures.push(format!(
+                    "a storage entry the released contract does not have was written: key {:?} = {}",
+                    String::from_utf8_lossy(k),
+                    shown()
+                ));
+            }
+        }
+        // an entry that disappeared can only be an order
+        for (k, _) in &ctx.pre.raw {
+            if ctx.post.get(k).is_none() && !k.starts_with(ASK_PREFIX) && !k.starts_with(BID_PREFIX) {
+                failures.push(format!("the storage entry {:?} was removed", String::from_utf8_lossy(k)));
+            }
+        }
+    }
+    // ---- (b) what the contract reads back
+    let (mut n_read, mut n_unjudged) = (0, 0);
+    for (k, v) in ctx.post.asks() {
+        let key = id_str(k);
+        if format::ask_of(v).is_err() {
+            n_unjudged += 1;
+            continue;
+        }
+        if !uuid_parses(&key) {
+            n_unjudged += 1;
+            continue;
+        }
+        n_read += 1;
+        match query_value(world, QueryMsg::GetAsk { id: key.clone() }) {
+            Ok(ans) if Some(&ans) == json_of(v).as_ref() => {}
+            Ok(ans) => failures.push(format!(
+                "get_ask {key} answers {ans}, the stored record is {}",
+                String::from_utf8_lossy(v)
+            )),
+            Err(e) => failures.push(format!(
+                "get_ask {key} fails ({e}) although a released-format ask is stored: {}",
+                String::from_utf8_lossy(v)
+            )),
+        }
+    }
+    let mut legacy_left: Vec<String> = vec![];
+    for (k, v) in ctx.post.bids() {
+        let key = id_str(k);
+        let stored = format::classify_bid(v);
+        if let StoredBid::Legacy(_) = &stored {
+            legacy_left.push(key.clone());
+        }
+        if matches!(stored, StoredBid::Malformed { .. }) || !uuid_parses(&key) {
+            n_unjudged += 1;
+            continue;
+        }
+        n_read += 1;
+        let answer = query_value(world, QueryMsg::GetBid { id: key.clone() });
+        match (stored, answer) {
+            (StoredBid::Current(_), Ok(ans)) if Some(&ans) == json_of(v).as_ref() => {}
+            (StoredBid::Current(_), Ok(ans)) => failures.push(format!(
+                "get_bid {key} answers {ans}, the stored record is {}",
+                String::from_utf8_lossy(v)
+            )),
+            (StoredBid::Current(_), Err(e)) => failures.push(format!(
+                "get_bid {key} fails ({e}) although a released-format bid is stored: {}",
+                String::from_utf8_lossy(v)
+            )),
+            // a legacy-format record is either not served, or served as what it says:
+            // original amounts, accumulated = sums over its event log
+            (StoredBid::Legacy(_), Err(_)) => {}
+            (StoredBid::Legacy(l), Ok(ans)) => {
+                let says = l.as_current().map(|b| format::bid_value(&b));
+                if says.as_ref() != Some(&ans) {
+                    failures.push(format!(
+                        "get_bid {key} answers {ans} for a legacy-format record that says {} (original minus event sums {:?}): {}",
+                        says.map(|s| s.to_string()).unwrap_or_else(|| "nothing representable".to_string()),
+                        l.sums(),
+                        String::from_utf8_lossy(v)
+                    ));
+                }
+            }
+            (StoredBid::Malformed { .. }, _) => {}
+        }
+    }
+    for (what, key, msg) in [
+        ("contract_info", CONTRACT_INFO_KEY, QueryMsg::GetContractInfo {}),
+        ("version_info", VERSION_INFO_KEY, QueryMsg::GetVersionInfo {}),
+    ] {
+        let raw = match ctx.post.get(key) {
+            Some(r) => r,
+            None => continue,
+        };
+        let golden = if what == "contract_info" {
+            format::config_of(raw).is_ok()
+        } else {
+            format::version_of(raw).is_ok()
+        };
+        if !golden {
+            n_unjudged += 1;
+            continue;
+        }
+        n_read += 1;
+        match query_value(world, msg) {
+            Ok(ans) if Some(&ans) == json_of(raw).as_ref() => {}
+            Ok(ans) => failures.push(format!(
+                "get_{what} answers {ans}, the stored record is {}",
+                String::from_utf8_lossy(raw)
+            )),
+            Err(e) => failures.push(format!(
+                "get_{what} fails ({e}) although a released-format record is stored: {}",
+                String::from_utf8_lossy(raw)
+            )),
+        }
+    }
+    // ---- (c) a migration out of the conversion window's versions leaves no legacy-format bid
+    if ctx.kind == "migrate" {
+        let from = ctx.pre.version().map(|v| v.version);
+        if in_conversion_window(from.as_deref()) && !legacy_left.is_empty() {
+            failures.push(format!(
+                "after the migration from {} the bid(s) {} are still in the legacy format (no later request can read them)",
+                from.unwrap_or_default(),
+                legacy_left.join(", ")
+            ));
+        }
+    }
+    verdict(
+        failures,
+        format!(
+            "{n_written} written record(s) in the released shape, {n_read} stored record(s) read back faithfully ({n_unjudged} not judged)"
+        ),
+    )
 }
 
 #[cfg(test)]
